@@ -819,7 +819,9 @@ class NetConnections:
         inodes = {}
         for pid in pids():
             try:
-                inodes.update(self.get_proc_inodes(pid))
+                # a socket can be shared by many processes
+                for inode, pairs in self.get_proc_inodes(pid).items():
+                    inodes.setdefault(inode, []).extend(pairs)
             except (FileNotFoundError, ProcessLookupError, PermissionError):
                 # os.listdir() is gonna raise a lot of access denied
                 # exceptions in case of unprivileged user; that's fine
